@@ -61,7 +61,9 @@ Lemma normalizer_semantics t tr ws gp k rn cs :
   nth_error (sg_norms t) k = Some rn -> nth_error (certs_of (sg_num t)) k = Some cs ->
   exists n, norm_to_op rn = Some n
     /\ (mdet (fst n) = 1 \/ mdet (fst n) = -1)
-    /\ (forall g, In g (group_ops tr gp) -> In (op_compose n (op_compose g (op_inv n))) (group_ops tr gp))
+    /\ (op_compose n (op_inv n) = idop /\ op_compose (op_inv n) n = idop
+        /\ forall g, In g (group_ops tr gp) -> In (op_compose n (op_compose g (op_inv n))) (group_ops tr gp)
+                                              /\ In (op_compose (op_inv n) (op_compose g n)) (group_ops tr gp))
     /\ (forall b, In b (metric_basis (sg_num t)) -> mmul (mtrans (fst n)) (mmul b (fst n)) = b)
     /\ (all_proper (group_ops tr gp) = true -> mdet (fst n) = 1)
     /\ perm_wellformed (map iw_letter ws) (n_perm rn) = true
